@@ -122,6 +122,8 @@ def _truthy(v):
 def _eval(expr, doc, variables):
     if isinstance(expr, str):
         if expr.startswith('$$'):
+            if expr[2:] not in variables:
+                raise OperationFailure('Use of undefined variable: %s' % expr[2:])
             return variables[expr[2:]]
         if expr.startswith('$'):
             return doc.get(expr[1:])          # missing field -> null
@@ -131,6 +133,8 @@ def _eval(expr, doc, variables):
     if isinstance(expr, dict):
         if len(expr) == 1:
             (op, arg), = expr.items()
+            if op == '$literal':
+                return arg
             if op == '$and':
                 return all(_truthy(_eval(a, doc, variables)) for a in arg)
             if op == '$or':
